@@ -243,3 +243,53 @@ pub fn block_on<F: std::future::Future>(fut: F) -> F::Output {
         }
     }
 }
+
+/// Environment side of the writers: a sink that accepts at most `max` bytes per `write` / `poll_write` call
+/// (short writes are legal for `io::Write` and `AsyncWrite`; `write_all` has to loop) and, as an `AsyncWrite`,
+/// answers `Pending` before every other call.  `calls` logs (offered, accepted) per call.
+pub struct ShortSink {
+    pub out: Vec<u8>,
+    pub max: usize,
+    pub calls: Vec<(usize, usize)>,
+    pend_next: bool,
+}
+
+impl ShortSink {
+    pub fn new(max: usize) -> Self {
+        Self { out: Vec::new(), max: max.max(1), calls: Vec::new(), pend_next: true }
+    }
+}
+
+impl io::Write for ShortSink {
+    fn write(&mut self, buf: &[u8]) -> io::Result<usize> {
+        let k = buf.len().min(self.max);
+        self.out.extend_from_slice(&buf[..k]);
+        self.calls.push((buf.len(), k));
+        Ok(k)
+    }
+    fn flush(&mut self) -> io::Result<()> {
+        Ok(())
+    }
+}
+
+impl tokio::io::AsyncWrite for ShortSink {
+    fn poll_write(self: Pin<&mut Self>, cx: &mut Context<'_>, buf: &[u8]) -> Poll<io::Result<usize>> {
+        let this = self.get_mut();
+        if this.pend_next {
+            this.pend_next = false;
+            cx.waker().wake_by_ref();
+            return Poll::Pending;
+        }
+        this.pend_next = true;
+        let k = buf.len().min(this.max);
+        this.out.extend_from_slice(&buf[..k]);
+        this.calls.push((buf.len(), k));
+        Poll::Ready(Ok(k))
+    }
+    fn poll_flush(self: Pin<&mut Self>, _cx: &mut Context<'_>) -> Poll<io::Result<()>> {
+        Poll::Ready(Ok(()))
+    }
+    fn poll_shutdown(self: Pin<&mut Self>, _cx: &mut Context<'_>) -> Poll<io::Result<()>> {
+        Poll::Ready(Ok(()))
+    }
+}
